@@ -193,6 +193,11 @@ func (maps *trackedMaps) processUnfiltered(ctx context.Context, ef *Filter, filt
 				}
 			}
 			field := v.MapIndex(key)
+			if !field.IsValid() {
+				// a key that is not equal to itself (a NaN): its value can
+				// neither be read nor replaced, so it cannot be filtered
+				return fmt.Errorf("%s: the value of map key %v cannot be looked up: %w", op, key, ErrInvalidParameter)
+			}
 
 			if field.CanInterface() && field.Interface() == nil {
 				continue
